@@ -193,6 +193,16 @@ Definition gTags (v : value) : tags :=
 Definition gMsg (v : value) : msg :=
   Msg (gTags (nth_v 0 v)) (gS (nth_v 1 v)) (gS (nth_v 2 v)) (gLS (nth_v 3 v)).
 
+(* __str__ with its cache self._str (None = not computed yet): the cache is consulted first, and what is
+   stored is the string that is returned (T05.STR_CACHES_RETURNED_STRING pins that shape of the source).
+   op 4 of [run]: the strings returned by two successive str() calls on a keyword-built message *)
+Definition str_cached (m : msg) (cache : option str) : str * option str :=
+  match cache with
+  | Some s => (s, cache)
+  | None => let s := serialize m in
+            (s, if gen.T05.STR_CACHES_RETURNED_STRING then Some s else None)
+  end.
+
 (* run: (op, payload).
    op 0: parse line -> (time tag lookup, result if time valid, result if not)
    op 1: serialize msg -> str
@@ -206,6 +216,10 @@ Definition run (v : value) : value :=
   | 1 => vS (serialize (gMsg payload))
   | 2 => vS (escape (gS payload))
   | 3 => vS (unescape (gS payload))
+  | 4 => let m := gMsg payload in
+         let r1 := str_cached m None in
+         let r2 := str_cached m (snd r1) in
+         L [vS (fst r1); vS (fst r2)]
   | _ => L []
   end.
 
